@@ -84,6 +84,8 @@ def run(prop, tier, seed, results, violations, undecided, infra):
             r = KN.search(h, iters, seed + 1)
             if r.get('status') == 'found':
                 native_found[h] = r
+            elif r.get('status') != 'notfound':
+                infra.append('native search of harness %s did not run (%s)' % (h, (r.get('output') or r.get('status') or '')[-200:]))
         extra['bounded'].append({'engine': 'native random search (exploration, not a proof)', 'harnesses': hs_all,
                                  'iterations_each': iters, 'failing': sorted(native_found)})
     # ---- 2. Kani: bounded stand-in / conformance harnesses of this tier
